@@ -70,7 +70,7 @@ fn value_of(cssout: &str, prop: &str) -> Option<String> {
 
 pub fn run(ctx: &Ctx) {
     let n = SEL.len() as u64;
-    let maxn = 3;
+    let maxn = ctx.pick(3, 4);
 
     // ---- is-superselector -------------------------------------------------------------------------
     let sub = "is-superselector";
@@ -105,7 +105,7 @@ pub fn run(ctx: &Ctx) {
             }
         },
     );
-    ctx.bound(sub, &format!("all {}^2 ordered pairs; every `true` answer checked on every DOM of <= 3 elements", n), true);
+    ctx.bound(sub, &format!("all {}^2 ordered pairs; every `true` answer checked on every DOM of <= {} elements", n, maxn), true);
     ctx.sample(sub, json!({"input": "is-superselector(\"a ~ c\", \"a ~ b c\")", "oracle": "true only if match(B) is a subset of match(A)"}));
 
     // ---- selector-unify ------------------------------------------------------------------------------
@@ -159,7 +159,7 @@ pub fn run(ctx: &Ctx) {
             }
         },
     );
-    ctx.bound(sub, &format!("all {}^2 ordered pairs; every non-null result checked for match(R) within match(A) and match(B) on every DOM of <= 3 elements; null refused for conflict-free compounds", n), true);
+    ctx.bound(sub, &format!("all {}^2 ordered pairs; every non-null result checked for match(R) within match(A) and match(B) on every DOM of <= {} elements; null refused for conflict-free compounds", n, maxn), true);
     ctx.sample(sub, json!({"input": "selector-unify(\"[a=b i]\", \"[a=b]\")"}));
 
     // ---- selector-nest / selector-append vs the nested rule ---------------------------------------------
@@ -261,6 +261,71 @@ pub fn run(ctx: &Ctx) {
     );
     ctx.bound(sub, &format!("{} selectors x 6 targets x 6 extenders: selector-extend equals the rewritten selector of the corresponding @extend (as a set of complex selectors); selector-replace is contained in it", n), true);
     ctx.sample(sub, json!({"input": "selector-extend(\".x .y\", \".y\", \".z .w\")  vs  .x .y{} .z .w{@extend .y}"}));
+
+    // ---- simple-selectors() ---------------------------------------------------------------------------------
+    {
+        let sub = "simple-selectors";
+        let compounds: &[&str] = &[
+            "a", ".x", "a.x", ".x.y", "#i", "a#i", ".x:hover", ":not(.x)", ":is(.x, .y)", "*", "*.x", "[t]", "[a=b]", "[a=\"b c\"]", ".x::before", ":nth-child(2n)", ".x:nth-child(2n+1)", "a.x#i[t]:hover::after", ".x.x",
+            "a:not(.x):is(b, c)", "%p", "a%p.x", ".x:not(.y, .z)", "::slotted(.x)", "a:nth-child(2n of .x)", ".\\31 x", ".a-b_c",
+        ];
+        let rejected: &[&str] = &["a b", "a > b", "a, b", ".x .y", "a +", "", "> a", "+ a", "~", "> a b", "a, > b"];
+        let n = (compounds.len() + rejected.len()) as u64;
+        par(
+            ctx,
+            sub,
+            n,
+            |i| json!({"selector": if (i as usize) < compounds.len() { compounds[i as usize] } else { rejected[i as usize - compounds.len()] }}),
+            |i, l| {
+                let i = i as usize;
+                let (sel, must_fail) = if i < compounds.len() { (compounds[i], false) } else { (rejected[i - compounds.len()], true) };
+                let src = format!("$s: simple-selectors(\"{}\");\nq {{ n: length($s); sep: list-separator($s); }}\n@each $p in $s {{ r {{ part: \"<#{{$p}}>\"; }} }}\n", sel.replace('\\', "\\\\").replace('"', "\\\""));
+                l.evals += 1;
+                let o = compile(&src, &Cfg::scss());
+                l.outcome(o.digest());
+                l.validated += 1;
+                let key = format!("simple-selectors:{}", sel);
+                match (&o, must_fail) {
+                    (Outcome::Panic(p), _) => ctx.violation(sub, &key, &format!("panic: {}", p), json!({"input": src})),
+                    (Outcome::Err(_), true) => l.count("rejected_as_expected", 1),
+                    // (the property only asks that the function does not crash on these; whether a complex
+                    // selector is rejected or its first compound is used is counted, not judged)
+                    (Outcome::Ok(_), true) => l.count("non_compound_input_accepted", 1),
+                    (Outcome::Err(e), false) => ctx.violation(sub, &key, &format!("simple-selectors(\"{}\") fails: {}", sel, e.message), json!({"input": src})),
+                    (Outcome::Ok(c), false) => {
+                        l.nontrivial += 1;
+                        let blocks = css::flatten(&css::parse(c).unwrap_or_default());
+                        let parts: Vec<String> = blocks.iter().filter(|b| b.selector == "r").flat_map(|b| b.decls.iter()).filter(|d| d.0 == "part").map(|d| d.1.trim_matches(|c| c == '"' || c == '\'').trim_start_matches('<').trim_end_matches('>').replace("\\\\", "\\").replace("\\\"", "\"").to_string()).collect();
+                        let nn = blocks.iter().flat_map(|b| b.decls.iter()).find(|d| d.0 == "n").map(|d| d.1.clone()).unwrap_or_default();
+                        let sep = blocks.iter().flat_map(|b| b.decls.iter()).find(|d| d.0 == "sep").map(|d| d.1.clone()).unwrap_or_default();
+                        let want = parse_compound(sel).map(|c| c.len()).unwrap_or(0);
+                        let joined: String = parts.concat();
+                        let norm = |t: &str| t.chars().filter(|c| !c.is_whitespace()).collect::<String>();
+                        let mut bad = Vec::new();
+                        if norm(&joined) != norm(sel) {
+                            bad.push(format!("the parts {:?} do not spell the selector", parts));
+                        }
+                        if want > 0 && (parts.len() != want || nn != want.to_string()) {
+                            bad.push(format!("{} parts (length() = {}), the selector has {} simple selectors", parts.len(), nn, want));
+                        }
+                        if sep != "comma" {
+                            bad.push(format!("the result is a {}-separated list", sep));
+                        }
+                        for p2 in &parts {
+                            if parse_compound(p2).map(|c| c.len() != 1).unwrap_or(false) {
+                                bad.push(format!("part `{}` is not one simple selector", p2));
+                            }
+                        }
+                        if !bad.is_empty() {
+                            ctx.violation(sub, &key, &bad.join("; "), json!({"input": src, "output": c}));
+                        }
+                    }
+                }
+            },
+        );
+        ctx.bound(sub, "27 compound selectors (every kind of simple selector, pseudos with arguments, escapes, placeholders): the parts are single simple selectors, as many as the selector has, spelling it in order in a comma list; 11 non-compound inputs (complex selectors, lists, leading combinators) must not crash", true);
+        ctx.sample(sub, json!({"input": "simple-selectors(\"a.x#i[t]:hover::after\")"}));
+    }
 
     // ---- selector-parse round trip --------------------------------------------------------------------------
     let sub = "parse-roundtrip";
